@@ -5,3 +5,8 @@ import AioMySensors.Model.Text
 import AioMySensors.Model.PyNum
 import AioMySensors.Model.Codec
 import AioMySensors.Model.Version
+import AioMySensors.Model.PDict
+import AioMySensors.Model.PyFloat
+import AioMySensors.Model.State
+import AioMySensors.Model.Effects
+import AioMySensors.Model.Handlers
